@@ -36,6 +36,27 @@ NEEDS = {
  'C17-2': 'a scheduled (delayed / clock) tweener change, then a set() to the current value to cancel it',
  'C18-1': 'a real file streamed with a start position / seek / loop-back target that is not on a packet boundary',
  'C18-2': 'a truncated file whose header promises more frames than are present, played as a streaming sound to where the data ends',
+ 'C01-3': 'a one-channel device and a scene that clips in one channel while left and right differ: the mono sample is folded down before the clamp',
+ 'C02-3': 'a tweened sub-track volume / fade / route while the device callback is not a multiple of the internal buffer size: the track tweens advance by the nominal chunk length',
+ 'C02-4': 'a thread interleaving inside one on_start_processing: the (empty) send queue is drained, the caller adds a send track, a track routed to it and a sound, then the sub-track queue is drained',
+ 'C03-3': 'a streaming sound whose decoder has stalled (ring starved) and a pause / stop / resume with a non-zero fade issued during the stall',
+ 'C05-3': 'a clock-time target with a non-zero fraction on a clock that steps more than 1 - fraction ticks per internal buffer',
+ 'C06-3': 'a parameter that moved in the previous chunk, then a zero-duration set() with a delayed / clock start (or the modulator it follows disappears): previous_value is never brought up to date',
+ 'C06-4': 'a delayed tween whose delay is not a multiple of the update step and whose duration is shorter than the leftover of that update',
+ 'C07-3': 'a sub-track that has finished pausing, then a command to one of its sounds, nested tracks or effects',
+ 'C08-3': 'a sub-track that has reached Paused, then a child dropped (or added and dropped with the parent), then a callback',
+ 'C08-4': 'a thread interleaving: play() + drop of a persisting track handle between the audio thread\'s read of the pending-sound queue and its read of the removal flag',
+ 'C09-3': 'a sliced streaming sound whose slice starts after frame 0 and decoder packets longer than the slice start',
+ 'C09-4': 'a stream of exactly 16383 + k x callback-size frames with the decoder keeping ahead: the push that fills the ring is also the last frame',
+ 'C11-3': 'a track routed to a send track and a device callback longer than the internal buffer size',
+ 'C11-4': 'a non-looping static sound ending inside the rendered window, non-silent last frames, internal chunks longer than one frame; two chunkings compared',
+ 'C12-3': 'a three-level tree with parent and child handles dropped while the grandchild is alive (or a persisting child still playing)',
+ 'C12-4': 'pause, then resume_at with a delayed / clock start time, and an observation that encodes position',
+ 'C15-3': 'two or more listeners, the last-added one and an earlier one dropped between the same two callbacks',
+ 'C15-4': 'a parameter linked to the listener distance by set() with a tween; the tween ends; then the distance changes',
+ 'C16-3': 'a filter that has processed, then a device sample-rate change, with the cutoff not moving afterwards',
+ 'C17-3': 'a Pulse LFO with more than one cycle per internal chunk (or a phase >= 2 set at run time)',
+ 'C18-3': 'a seek whose target lies in the packet the decoder thread decoded last (about one ring ahead of what is heard) on a sound longer than the ring',
 }
 for d in sorted(glob.glob('/verif/seeded/C*-*')):
     name = os.path.basename(d)
@@ -66,6 +87,8 @@ for d in sorted(glob.glob('/verif/seeded/C*-*')):
             'results': {k: {'exit': v['exit'], 'oracle': v['oracle']} for k, v in caught['results'].items()} if caught else None,
         },
     }
+    if os.path.exists(f'{d}/patch.orig-c306b95.diff'):
+        meta['note'] = 'patch.diff is the author\'s change (patch.orig-c306b95.diff) re-made on top of the repair 2edeeac, which rewrote the same function; re-confirmed afterwards (the demo needs RUSTFLAGS="--cfg kira_verif")'
     if os.path.exists(f'{d}/patch.orig-de86951.diff'):
         meta['note'] = 'patch.diff is the author\'s patch (patch.orig-de86951.diff) carried over with git apply --3way onto the repair c306b95, which touched the same file; re-confirmed afterwards'
     json.dump(meta, open(f'{d}/meta.json', 'w'), indent=1)
